@@ -82,10 +82,10 @@ CHECKS = {
                      "{Missing, Empty, NoDef, version 1, version 2}; interfaces are the 6 versions of mc/project.py."),
     "C10": dict(level="model_checking", engine="E2", design="5/C10",
                 technique="explicit-state BFS over the byte-level project graph on the implementation (states = file bytes, events = sync / edit-truth)",
-                text="From each of 342 concrete start states (216: every combination of missing / empty / no definition / version 1 / "
+                text="From each of 406 concrete start states (216: every combination of missing / empty / no definition / version 1 / "
                      "version 2 / helper function + version 1 per file; 14 with function and argparse function in one file; 20 with a "
                      "method target; 72 with textual surroundings; 20 where a second file of the truth's kind is shared with another "
-                     "kind) all 9 sync events and 6 edit events are applied with the real "
+                     "kind; 54 with paths spelled ~/file; 10 with a dotted method name spelled with blanks) all 9 sync events and 6 edit events are applied with the real "
                      "ground_truth, breadth-first, states being exact byte snapshots, to depth 2 (thorough 4). On every sync "
                      "transition the identical sync is run again and must be a self-loop; the truth file must be byte-identical; the "
                      "returned report and the printed modified/unchanged lines must match the byte changes; a rejected sync must "
@@ -109,7 +109,7 @@ CHECKS = {
                      "__init__ merges, every emitter and parser, gen) runs in one fresh interpreter per PYTHONHASHSEED; seeds are "
                      "added until every permutation of the relevant name-set iteration order has been witnessed (k<=3 quick, k<=4 "
                      "thorough; >=64 / >=256 seeds) plus random seeds; all digests must equal seed 0's. (b) every sequence with "
-                     "repetition over 18 conversions up to length 2 (thorough 3), of length 3 (4) over the 7 core conversions, and "
+                     "repetition over 19 conversions up to length 2 (thorough 3), of length 3 (4) over the 7 core conversions, and "
                      "every ordered pair of the 24 twin-family conversions (two interfaces sharing every name and type name, each as "
                      "parse and emit input in six kinds) runs in a child forked from a pristine post-import process and each "
                      "call's output must equal its solo output.",
@@ -146,7 +146,7 @@ CHECKS = {
                 note="Trusted: CPython ast. Bounded by the item templates (nesting depth 3, functions before and after classes)."),
     "C16": dict(level="exploration", engine="E1", design="5/C16",
                 technique="bounded-exhaustive enumeration of function bodies x interfaces x routes, statement lists compared via ast.dump",
-                text="Every body (all sequences of <=2 quick / <=3 thorough distinct statements from 9 templates x 4 final statements) "
+                text="Every body (all sequences of <=2 quick / <=3 thorough distinct statements from 10 templates x 4 final statements) "
                      "on each of 6 interfaces is carried through function->function, method->method, argparse->argparse (extra "
                      "statements after / between the add_argument calls), function->class __call__ and class __call__->method with "
                      "the real parse / emit functions; the non-docstring statements must be identical "
